@@ -707,6 +707,40 @@ pub fn wire_spec(max_attrs: usize) -> BoxedStrategy<WireSpec> {
         .boxed()
 }
 
+/// plain attributes followed by a well-formed tail; the defect is usually absent
+pub fn wire_spec_wellformed(max_plain: usize) -> BoxedStrategy<WireSpec> {
+    let tails = wellformed_tails();
+    let n = tails.len();
+    (
+        wire_type(),
+        tid_strategy(),
+        vec(wire_plain(), 0..=max_plain),
+        0..n,
+        creds_strategy(),
+        prop_oneof![6 => Just(Defect::None), 4 => defect_strategy()],
+    )
+        .prop_map(move |(mtype, tid, mut attrs, t, creds, defect)| {
+            // plain attributes must not carry a tail type here
+            attrs.retain(|a| match a {
+                WireAttr::Plain { ty, .. } => *ty != refstun::T_MI && *ty != refstun::T_SHA256 && *ty != refstun::T_FP,
+                _ => true,
+            });
+            attrs.extend(tails[t].iter().cloned());
+            WireSpec {
+                mtype,
+                tid,
+                attrs,
+                creds,
+                defect,
+            }
+        })
+        .boxed()
+}
+
+pub fn wire_spec_mixed(max_attrs: usize) -> BoxedStrategy<WireSpec> {
+    prop_oneof![wire_spec_wellformed(max_attrs), wire_spec(max_attrs)].boxed()
+}
+
 /// well-formed tails: every order of subsets of {MI, SHA256} followed optionally by FP
 pub fn wellformed_tails() -> Vec<Vec<WireAttr>> {
     let mi = WireAttr::Mi { correct: true };
